@@ -286,6 +286,13 @@ class Run:
         self.quiet = q
         self.emit({"e": "early", "stage": stage_ref, "s": self.proj.state()})
 
+    def claim_sweep(self) -> None:
+        q = self.quiet
+        self.quiet = True
+        self.store.cleanup_completed_stage_claims()
+        self.quiet = q
+        self.emit({"e": "claimsweep", "s": self.proj.state()})
+
     def bloom_reset(self) -> None:
         from stabilize.queue.dedup import get_deduplicator
 
